@@ -50,7 +50,26 @@ def random_curve_spec(rng):
         return spec, "circle"
     degree = rng.choice([2, 3])
     mixed = rng.random() < 0.3
+    r2 = rng.random()
+    if r2 < 0.15:
+        spec, _ = G.random_lens(rng, center, size)
+        return spec, "lens"
+    if r2 < 0.3:
+        spec, _ = G.random_bulged_rect(rng, center, size)
+        return spec, "bulged-rect"
     spec, _ = G.random_blob(rng, center, size, degree=degree, mixed=mixed)
+    if r2 < 0.4 and degree == 2 and not mixed:
+        # the same quadratic chain given with degree-elevated (cubic) control polygons for some segments
+        segs = []
+        for seg in spec["segs"]:
+            pts = [(G.exact(x), G.exact(y)) for x, y in seg]
+            if len(pts) == 3 and rng.random() < 0.6:
+                p0, p1, p2 = pts
+                q1 = ((p0[0] + 2 * p1[0]) / 3, (p0[1] + 2 * p1[1]) / 3)
+                q2 = ((2 * p1[0] + p2[0]) / 3, (2 * p1[1] + p2[1]) / 3)
+                pts = [p0, q1, q2, p2]
+            segs.append(pts)
+        return G.ctrl_spec(segs, "float"), "blob-elevated"
     if rng.random() < 0.3:
         segs = G.blob_segments(rng, rng.choice([3, 4]), degree, center, 0.8 * size, size, False, bulge=2.2)
         spec = G.ctrl_spec(segs, "float")
@@ -79,7 +98,7 @@ def random_pairs(rng, nseg, exact):
         if rng.random() < 0.25:
             pairs.append((index, node))  # exact duplicate
         if rng.random() < 0.25:
-            eps = rng.choice([1e-17, 1e-13, 1e-10, 1e-8, 1e-7, 3e-6, 1e-5])
+            eps = rng.choice([1e-17, 1e-13, 1e-10, 1e-8, 1e-7, 3e-6, 1e-5, 1e-3, 4e-3, 1e-2])
             near = node + (Fr(eps) if exact else eps)
             if 0 <= near <= 1:
                 pairs.append((index, near))
